@@ -696,6 +696,11 @@ class MinMaxAggregator:
             return [stm]
         if {PREV, NEXT}.intersection(collect_ast(stm, "Variable")):
             return [stm]  # the variable names of the chain elements are taken
+        if any(
+            index is None and collect_ast(arg, "Variable")
+            for index, arg in zip(minmaxpred[1].mapping, oldmax.atom.symbol.arguments)
+        ):
+            return [stm]  # a constant of the head is read into a variable here, the chain atom does not bind it
         if not self._result_only_weight(oldmax, minmaxpred[2], varname, term_tuple[1:]):
             log.info(f"Cannot use chaining in {loc2str(stm.location)} as the weight is not exactly the result.")
             return [stm]
@@ -791,6 +796,11 @@ class MinMaxAggregator:
             return [elem]
         if not self._result_only_weight(old_max, minmaxpred[2], varname, term_tuple[1:]):
             return [elem]
+        if any(
+            index is None and collect_ast(arg, "Variable")
+            for index, arg in zip(minmaxpred[1].mapping, old_max.atom.symbol.arguments)
+        ):
+            return [elem]  # a constant of the head is read into a variable here, the chain atom does not bind it
         if {PREV, NEXT}.intersection(collect_ast(elem, "Variable")):
             return [elem]  # the variable names of the chain elements are taken
 
